@@ -195,6 +195,15 @@ def run(ctx):
         # R6 / R7 for the concatenation formats
         if short in CONCAT_FORMATS:
             lo = prog.format_op(short, "load_one")
+            # the frame parser: load_one itself, or the one function load_one hands its arguments to unchanged
+            # (`def load_one(lit, ...): return _load_frame(lit, ...)`), which load_many may then call directly
+            body_ = [st for st in lo.body if not (isinstance(st, ast.Expr) and isinstance(st.value, ast.Constant))]
+            if len(body_) == 1 and isinstance(body_[0], ast.Return) and isinstance(body_[0].value, ast.Call):
+                cs_ = next((c for c in lo.calls if c.node is body_[0].value), None)
+                inner = cs_.callees[0] if cs_ is not None and len(cs_.callees) == 1 and cs_.callees[0].module is lo.module else None
+                call_ = body_[0].value
+                if inner is not None and not call_.keywords and [getattr(a, "id", None) for a in call_.args] == list(lo.posparams[: len(call_.args)]) and len(call_.args) == len(inner.posparams):
+                    lo = inner
             ys = [x for s in floop.body for x in ast.walk(s) if isinstance(x, ast.Yield)]
             okk = len(ys) == 1 and isinstance(ys[0].value, ast.Call) and any(cs.node is ys[0].value and lo in cs.callees for cs in g.calls)
             if okk:
